@@ -3,7 +3,7 @@ history independence; non-mutation; put/get for all four interfaces."""
 from __future__ import annotations
 
 import copy
-from dataclasses import dataclass
+from dataclasses import dataclass, field
 from typing import NamedTuple
 
 import jax
@@ -118,6 +118,18 @@ class DC:
     b: float
 
 
+@dataclass
+class DCDerived:
+    """a state with a field that is not a constructor argument (the idiom liesel uses for its own kernel states)"""
+    a: float
+    b: float
+    offset: float = field(init=False)
+    total: float = field(init=False, default=0.0)
+
+    def __post_init__(self):
+        self.offset = 0.0
+
+
 class NT(NamedTuple):
     a: float
     b: float
@@ -133,13 +145,39 @@ def simple_cases(col):
         col.add(None if ok else {"sig": f"native::interface::{name}", "what": "put/get / non-mutation / log_prob law fails", "input": {"interface": name}})
 
 
+def dataclass_derived_case(col):
+    st = DCDerived(1.0, 2.0)
+    st.offset, st.total = 0.5, 7.0  # values differing from the constructor-time ones
+    iface = gs.DataclassInterface(lambda s: s.a * 2 + s.offset)
+    before = copy.deepcopy(st)
+    new = iface.update_state({"b": 5.0}, st)
+    direct = copy.deepcopy(st)
+    direct.b = 5.0
+    ok = new == direct and st == before and new is not st and iface.log_prob(new) == iface.log_prob(direct)
+    new2 = iface.update_state({"offset": 0.25}, st)  # a non-constructor field is a field: it can be part of the position
+    ok = ok and new2.offset == 0.25 and new2.a == 1.0 and new2.total == 7.0
+    col.add(None if ok else {"sig": "native::interface::dataclass_noninit_field", "what": f"update_state({{'b': 5.0}}, {before}) = {new}, direct assignment gives {direct}",
+                             "input": {"interface": "dataclass", "state": "dataclass with field(init=False) fields holding non-default values"}})
+
+
 def bounded(tier, seed):
     rng = np.random.default_rng(seed)
     col = util.Collector()
+    try:
+        dataclass_derived_case(col)
+    except Exception as e:
+        col.add({"sig": "native::interface::dataclass_noninit_field", "what": f"{type(e).__name__}: {str(e)[:200]}", "input": {"interface": "dataclass", "state": "dataclass with field(init=False) fields"}})
     for _ in range(1 if tier == "quick" else 6):
         for au in (True, False):
             liesel_case(col, au, rng)
     simple_cases(col)
+    try:
+        from rtc.c09 import legacy_transform_case
+        sub = util.Collector()
+        legacy_transform_case(sub, seed + 2)
+        col.add({**sub.violations[0], "sig": "native::interface::direct_value_node_consumer"} if sub.violations else None)
+    except Exception as e:
+        col.add({"sig": f"native::interface::exception::{type(e).__name__}", "what": str(e)[:200], "input": {"scenario": "legacy transform, variable-name keys"}})
     try:
         ambiguous_key_case(col)
     except Exception as e:
@@ -147,5 +185,5 @@ def bounded(tier, seed):
     return {"evaluations": col.evals, "distinct_nontrivial": col.evals,
             "rule": ("BOUNDED: Liesel model with two parameters, a derived sigma and a LEAF derived node pred (feeds no distribution), user model with auto_update on and off: "
                      "update_state eager vs a fresh interface (history independence) vs jax.jit vs jax.vmap vs direct assignment + full update on a new model, non-mutation of the input "
-                     f"state and of the user's model, put/get, log_prob; put/get/non-mutation/log_prob for the dict, dataclass and named-tuple interfaces. seed={seed}"),
+                     f"state and of the user's model, put/get, log_prob; a model built with the deprecated GraphBuilder.transform (calculation directly on a value node) updated through variable-name keys; put/get/non-mutation/log_prob for the dict, dataclass (also with field(init=False) fields holding non-default values) and named-tuple interfaces. seed={seed}"),
             "samples": [{"auto_update_of_user_model": False}], "exhaustive": False, "violations": col.violations}
